@@ -433,14 +433,17 @@ pub fn run_level_b(
                 let f = &world.files[i];
                 match &f.diff {
                     FileDiff::None | FileDiff::Deleted => write_file(&root, &f.path, &rendered[i].text),
-                    FileDiff::Insert { line, renamed_from, edit } => {
+                    FileDiff::Insert { renamed_from, .. } => {
                         let mut lines = rendered[i].lines.clone();
-                        match edit {
-                            LineEdit::Inserted => {
-                                lines.remove(line - 1);
+                        // undo the edits, last line first
+                        for (line, edit) in f.diff.edits().into_iter().rev() {
+                            match edit {
+                                LineEdit::Inserted => {
+                                    lines.remove(line - 1);
+                                }
+                                LineEdit::Replaced { old } => lines[line - 1] = old,
+                                LineEdit::Removed { old } => lines.insert(line - 1, old),
                             }
-                            LineEdit::Replaced { old } => lines[line - 1] = old.clone(),
-                            LineEdit::Removed { old } => lines.insert(line - 1, old.clone()),
                         }
                         let base_path = renamed_from.as_deref().unwrap_or(&f.path);
                         let nl = if rendered[i].no_final_newline { "" } else { "\n" };
